@@ -74,6 +74,15 @@ def gen_workload(rng, mode):
         for _ in range(rng.randint(1, 4)):
             pat, ns = rng.choice(gen.XML_STATEFUL_POOL)
             keys.append({'pattern': pat, 'ns': ns, 'custom': None, 'flags': 0, 'uses_scope': False, 'special': 0})
+    kinds = {('xml' if (sp['parser'] == 'xml') else 'html') for sp in specs}
+    if len(kinds) == 2:
+        # one compiled selector (shared through the pattern cache) meets an HTML tree and an XML tree
+        for _ in range(rng.randint(1, 3)):
+            pat = rng.choice(gen.CASE_POOL)
+            keys.append({'pattern': pat, 'ns': {'x': gen.NS_X} if pat.startswith('x|') else None, 'custom': None,
+                         'flags': 0, 'uses_scope': False, 'special': 0})
+            for si in range(len(specs)):
+                anchors.append((si, len(keys) - 1))
     if any(sp.get('detach') is not None for sp in specs):
         for _ in range(rng.randint(1, 3)):
             keys.append({'pattern': rng.choice(gen.ROOT_NTH_POOL), 'ns': None, 'custom': None, 'flags': 0,
@@ -156,7 +165,7 @@ def _gen_call(rng, keys, cur, specs):
         'op': 'call', 'entry': entry, 'key': rng.randrange(len(keys)), 'doc': d,
         'target': -1 if rng.random() < (0.6 if entry in ('select', 'iselect', 'select_one') else 0.15)
         else rng.randint(0, 60),
-        'form': rng.choice(['module', 'module', 'compiled', 'precompiled']),
+        'form': rng.choice(['module', 'module', 'compiled', 'precompiled', 'bs4']),
     }
     if entry in ('select', 'iselect'):
         op['limit'] = rng.choice([0, 0, 0, 0, 1, 3, -1])
@@ -323,7 +332,7 @@ def execute(sv, w, o2_seed=0, o2_rate=0.35, pristine_checks=2):
         for ck in prng.sample(order, min(pristine_checks, len(order))):
             op, ss = need[ck]
             try:
-                pristine[ck] = runner.isolated(_alone, sv, w, ss, op, hang_s=60)
+                pristine[ck] = runner.isolated(_alone, sv, w, ss, op, hang_s=20)
             except RuntimeError:
                 pass
     ref = {}
@@ -600,11 +609,15 @@ def _make_gen(ctx, call):
     key = ctx.keys[call['key']]
     tgt = ctx.target(call['doc'], call.get('target', -1))
     limit = call.get('limit', 0)
-    if call.get('form') == 'module':
+    if call.get('form') in ('module', 'bs4'):
         ns = dict(key['ns']) if key.get('ns') is not None else None
         kw = {}
         if key.get('custom') is not None:
             kw['custom'] = dict(key['custom'])
+        if call.get('form') == 'bs4':
+            if key.get('flags'):
+                kw['flags'] = key['flags']
+            return tgt.css.iselect(key['pattern'], ns, limit, **kw)
         return sv.iselect(key['pattern'], tgt, ns, limit, key.get('flags', 0), **kw)
 
     def later():
